@@ -22,7 +22,13 @@
      "noterm"       land does not stop the setpoint thread
      "swapfinal"    notify sent before stop
      "nointegrate"  resent setpoints keep the old height
-     "norecord"     PositionHlCommander forgets to record the new position                        *)
+     "norecord"     PositionHlCommander forgets to record the new position
+     "skipdup"      the setpoint thread takes a command equal to the one in force for "nothing to do":
+                    no setpoint is sent for it and the period wait starts afresh
+     "turnmod"      turn_left/turn_right reduce the requested angle modulo 360 degrees
+
+   The body may also let time pass between two primitives ("wait" a = ms: the user's own
+   time.sleep, as every program using start_*/stop does); the stream must not depend on it.        *)
 EXTENDS Integers, Sequences, FiniteSets, TLC
 
 CONSTANTS Helper, Mode,      \* "MC" | "PHC" ; "with" | "explicit"
@@ -170,8 +176,9 @@ MoveOps(p) ==       \* MotionCommander.move_distance
     LET d == P!Dist(p.a, p.b, p.c) v == MoveVel(p) IN
     <<Op("vel", 0, Lin((v * p.a) \div d, (v * p.b) \div d, (v * p.c) \div d)),
       Op("sleep", (d * 1000) \div v, NoVel), Op("vel", 0, NoVel)>>
+TurnAngle(p) == IF Bug = "turnmod" THEN p.b % 360 ELSE p.b
 TurnOps(p) == LET r == IF p.v = 0 THEN MCR ELSE p.v IN
-    <<Op("vel", 0, [NoVel EXCEPT !.w = p.a * r]), Op("sleep", (p.b * 1000) \div r, NoVel), Op("vel", 0, NoVel)>>
+    <<Op("vel", 0, [NoVel EXCEPT !.w = p.a * r]), Op("sleep", (TurnAngle(p) * 1000) \div r, NoVel), Op("vel", 0, NoVel)>>
 CircVel(p) == [NoVel EXCEPT !.vx = MoveVel(p), !.cr = p.c, !.cv = p.a * MoveVel(p)]
 CircOps(p) == <<Op("vel", 0, CircVel(p)), Op("sleep", CircMs([p EXCEPT !.v = MoveVel(p)]), NoVel), Op("vel", 0, NoVel)>>
 GoOps(p) ==         \* PositionHlCommander.go_to (move_distance computes the target first)
@@ -186,7 +193,7 @@ RationalGo(p) == LET T == P!Target(p, pos)
                      d == P!Dist(T.x - pos.x, T.y - pos.y, T.z - pos.z)
                  IN  d * d = dd /\ (d * 1000) % MoveVel(p) = 0
 DurQ(p) == CASE p.op = "move" -> P!Q(P!Dist(p.a, p.b, p.c), MoveVel(p), 0)
-             [] p.op = "turn" -> P!Q(p.b, IF p.v = 0 THEN MCR ELSE p.v, 0)
+             [] p.op = "turn" -> P!Q(TurnAngle(p), IF p.v = 0 THEN MCR ELSE p.v, 0)
              [] p.op = "circle" -> P!Q(2 * p.c * p.b, 360 * MoveVel(p), 1)
              [] OTHER -> P!Whole(0)
 
@@ -217,6 +224,7 @@ Choose(p) ==
                     [] p.op = "start" -> <<Op("vel", 0, [Lin(p.a, p.b, p.c) EXCEPT !.w = p.w])>>
                     [] p.op = "startcircle" -> <<Op("vel", 0, CircVel(p))>>
                     [] p.op = "stop" -> <<Op("vel", 0, NoVel)>>
+                    [] p.op = "wait" -> <<Op("sleep", p.a, NoVel)>>
                     [] p.op \in {"move", "goto"} /\ Helper = "PHC" -> GoOps(p)
                     [] OTHER -> <<>>
        IN IF p.op = "raise" \/ zero
@@ -249,6 +257,8 @@ SpGet == /\ sp = "waiting" /\ q # <<>>
          /\ q' = Tail(q)
          /\ IF Head(q) = TERM
             THEN sp' = "done" /\ UNCHANGED <<deadline, hs, zbase, zvel, zt0, calls, lastT, viol>>
+            ELSE IF Bug = "skipdup" /\ calls # <<>> /\ Head(q) = hs.v
+            THEN deadline' = now + Period /\ UNCHANGED <<sp, hs, zbase, zvel, zt0, calls, lastT, viol>>
             ELSE LET z == CurZ h == [v |-> Head(q), z |-> z] IN
                  /\ zbase' = z /\ zvel' = Head(q).vz /\ zt0' = now /\ hs' = h
                  /\ deadline' = now + Period /\ sp' = sp /\ Send(h)
